@@ -208,9 +208,16 @@ def build_events(sc, reuse_evs=None, reuse_queue=None, later=None, cuts=()):
             if s["battery_of"] not in shared_batt:
                 shared_batt[s["battery_of"]] = build_battery(s["battery"])
             batt_ = shared_batt[s["battery_of"]]
-        ev = (reuse_evs or {}).get(s["session_id"]) or build_ev(s, np_scalars=bool(sc["sim"].get("np_scalars")), battery=batt_)
+        late_dep = s.get("departure_set_late") and not (reuse_evs or {}).get(s["session_id"])
+        ev = (reuse_evs or {}).get(s["session_id"]) or build_ev(dict(s, departure=s["departure"] + late_dep) if late_dep else s,
+                                                                    np_scalars=bool(sc["sim"].get("np_scalars")), battery=batt_)
         cls = TaggedPluginEvent if s.get("ev_sub") else sut.PluginEvent
         evs.append(cls(s["arrival"], ev))
+        if late_dep:
+            # the stay is clipped through the EV's public setter AFTER its plug-in event exists (as one does with a generated queue)
+            ev.departure = s["departure"]
+            if s.get("est_departure") is None:
+                ev.estimated_departure = s["departure"]
     for e in sc["extra_events"]:
         if e.get("type") == "Event":
             evs.append(sut.Event(e["t"]))
